@@ -118,7 +118,8 @@ class System:
 def replay(rec, verbose=False):
     if "pumped_star" in rec["pool"]:
         pl = rec["pool"]
-        alpha = Pumped(pl["pumped_star"], pl["extra_links"], pl["cls"], pl["maxar"], pl["none_ends"])
+        alpha = Pumped(pl["pumped_star"], pl["extra_links"], pl["cls"], pl["maxar"], pl["none_ends"],
+                       pl.get("mini", False))
         w = alpha.initial()
     else:
         alpha = Alphabet(**rec["pool"])
@@ -170,9 +171,10 @@ def run(tier, seed, log):
         samples += [{"pool": spec, "history": h} for h in res.sample_histories[-3:]]
     pump = PUMPED[tier]
     pstates = ptrans = 0
-    for n in pump["ns"]:
-        alpha = Pumped(n)
-        res = engine_h.explore(System(alpha), seed=seed, max_depth=pump["depth"])
+    for n, mini, depth in ([(n, False, pump["depth"]) for n in pump["ns"]] +
+                           [(n, True, pump["mini_depth"]) for n in pump["ns"]]):
+        alpha = Pumped(n, mini=mini)
+        res = engine_h.explore(System(alpha), seed=seed, max_depth=depth)
         for fp, (cnt, rec) in res.viols.items():
             rec = dict(rec)
             rec["pool"] = alpha.describe()
@@ -185,7 +187,8 @@ def run(tier, seed, log):
         tot["nontrivial"] += res.nontrivial
     log(f"[{PROP}] pumped stars n={pump['ns']} depth<={pump['depth']}: states={pstates} transitions={ptrans}")
     pools_ev.append({"pool": "pumped stars (hub with n links; every history of <= depth focused ops from there)",
-                     "hub_degrees": pump["ns"], "depth": pump["depth"], "states": pstates,
+                     "hub_degrees": pump["ns"], "depth": pump["depth"], "narrow_alphabet_depth": pump["mini_depth"],
+                     "states": pstates,
                      "transitions": ptrans, "fixpoint": False})
     rep.coverage = {
         "states": tot["states"],
